@@ -245,6 +245,23 @@ def translate_search(src, hook, hash_ast=None):
     st = [x for x in ast[1] if x != ('using',)]
     L = Lower('hash_initialize')
     L.hash_ast = hash_ast
+    # auto v = E; while (v >>= k) BODY   (v not used afterwards)   is   for (auto size = E; size >>= k;) BODY
+    for i in range(len(st) - 1):
+        d, w = st[i], st[i + 1]
+        if (d[0] == 'decl' and d[1] == 'auto' and len(d[2]) == 1 and d[2][0][1] is not None and w[0] == 'while'
+                and w[1][0] == 'assign' and w[1][1] == '>>=' and w[1][2] == ('id', d[2][0][0])):
+            v = d[2][0][0]
+            if mc._mentions(st[i + 2:], v) or (v != 'size' and mc._mentions([d[2][0][1], w[1][3], w[2]], 'size')):
+                break
+
+            def ren(n):
+                if isinstance(n, list):
+                    return [ren(x) for x in n]
+                if isinstance(n, tuple):
+                    return ('id', 'size') if n == ('id', v) else tuple(ren(x) for x in n)
+                return n
+            st[i:i + 2] = [('for', ('decl', 'auto', [('size', ren(d[2][0][1]))]), ren(w[1]), None, ren(w[2]))]
+            break
     # --- split the top level: [pre...] halving-for [mid...] pass-for [error tail...]
     fors = [i for i, x in enumerate(st) if x[0] == 'for']
     if len(fors) != 2:
@@ -310,6 +327,14 @@ def translate_search(src, hook, hash_ast=None):
     if (inner[1], inner[2], inner[3]) != want_inner:
         raise mc.Unsupported('hash_initialize: inner loop header changed: ' + mc.show(inner[:4]))
     ib = [x for x in strip_block(inner[4]) if x != ('using',)]
+    # if (a == b) { A; continue; } B; break;   at the end of the loop body   is   if (a != b) { B; break; } A;
+    for i, x in enumerate(ib):
+        if (x[0] == 'if' and not x[1] and x[4] is None and x[2][0] == 'bin' and x[2][1] in ('==', '!=') and ib[-1] == ('break',) and i < len(ib) - 1):
+            th = strip_block(x[3])
+            if th and th[-1] == ('continue',):
+                neg = ('bin', '!=' if x[2][1] == '==' else '==', x[2][2], x[2][3])
+                ib = ib[:i] + [('if', False, neg, ('block', ib[i + 1:]), None)] + th[:-1]
+            break
     ifs = [i for i, x in enumerate(ib) if x[0] == 'if' and not x[1]]
     if len(ifs) != 1 or ib[ifs[0]][4] is not None:
         raise mc.Unsupported('hash_initialize: the id loop must contain exactly one if without else (the occupancy test)')
@@ -408,6 +433,10 @@ def main():
         params, body, _ = mc.find_function(cls_chk, r'\bhash_type_id\b', 'checked_perfect_hash::hash_type_id')
         ast = mc.parse_function_body(body, ('fast_perfect_hash', 'has_facet'))
         st = [x for x in ast[1] if x != ('using',)]
+        # auto index = ...; if (OK) return index; REPORT; abort();    is    auto index = ...; if (!OK) { REPORT; abort(); } return index;
+        if (len(st) > 3 and st[1][0] == 'if' and not st[1][1] and st[1][4] is None and strip_block(st[1][3]) == [('return', ('id', 'index'))]
+                and st[-1] == ('expr', ('call', ('id', 'abort'), []))):
+            st = [st[0], ('if', False, ('un', '!', st[1][2]), ('block', st[2:]), None), ('return', ('id', 'index'))]
         okc = (len(st) == 3 and st[0][0] == 'decl' and st[0][2][0][0] == 'index'
                and st[0][2][0][1] == ('call', ('scoped', ('tmpl', 'fast_perfect_hash', ['Policy']), 'hash_type_id'), [('id', 'type')])
                and st[1][0] == 'if' and not st[1][1] and st[1][4] is None and st[2] == ('return', ('id', 'index')))
